@@ -218,7 +218,7 @@ def crafted_header_stream(rng: random.Random, first_frame_len: int = 10):
             "frames": wire.dec_stream(data, True), "mode": "rdf11", "first_frame_len": wire.dec_stream(data, True)[0]["span"][1] - 1}
 
 
-def multi_sink_case(rng: random.Random, with_ns: bool = True):
+def multi_sink_case(rng: random.Random, with_ns: bool = True, empty_later_sink: bool = False):
     """Several sinks written through ONE stream: (cfg, groups, ns_per_group). Bindings repeat between sinks."""
     integ = rng.choice(["generic", "rdflib"])
     grouped = rng.random() < .6
@@ -246,6 +246,9 @@ def multi_sink_case(rng: random.Random, with_ns: bool = True):
             extra = [b for b in bindings(rng, None, k=2) if b[0] not in {p for p, _ in own} and b[1] not in {i for _, i in own}]
             own += extra[:1]
         nss.append(own)
+    if empty_later_sink and len(groups) >= 2 and rng.random() < .3:
+        # a sink AFTER the first that has bindings but holds no statement (its declarations still belong to the stream)
+        groups[rng.randrange(1, len(groups))] = []
     allst = [s for g in groups for s in g]
     need = gen.need_of(allst, phys, True, [("ns", a, b) for n in nss for a, b in n])
     small = rng.random() < .5
